@@ -82,6 +82,42 @@ pub fn sched_point(id: u32) {
     }
 }
 
+thread_local! {
+    /// Address of the mutex the current thread is about to lock (0 = none); see `sched_lock_point`.
+    static LOCK_TARGET: std::cell::Cell<usize> = const { std::cell::Cell::new(0) };
+}
+
+/// A schedule point immediately before `m.lock()`.  While the hook runs, `lock_target()` returns
+/// the address of `m`, so a scheduler can decide from the real state of the mutex (`try_lock`)
+/// whether the calling thread would block.
+#[inline]
+pub fn sched_lock_point(id: u32, m: &Mutex<()>) {
+    if ENABLED.load(Ordering::Relaxed) {
+        let _ = LOCK_TARGET.try_with(|c| c.set(m as *const Mutex<()> as usize));
+        sched_point(id);
+        let _ = LOCK_TARGET.try_with(|c| c.set(0));
+    }
+}
+
+/// Address of the mutex the calling thread is about to lock, or 0.
+pub fn lock_target() -> usize {
+    LOCK_TARGET.try_with(|c| c.get()).unwrap_or(0)
+}
+
+/// Whether the mutex at `addr` (a value obtained from `lock_target()` while its owner is alive)
+/// is currently free.
+///
+/// # Safety
+/// `addr` must be the address of a live `Mutex<()>`.
+pub unsafe fn mutex_is_free(addr: usize) -> bool {
+    let m = unsafe { &*(addr as *const Mutex<()>) };
+    match m.try_lock() {
+        Ok(_) => true,
+        Err(std::sync::TryLockError::Poisoned(_)) => true,
+        Err(std::sync::TryLockError::WouldBlock) => false,
+    }
+}
+
 static NEXT_ID: AtomicU64 = AtomicU64::new(1);
 static DROPPED: Mutex<Option<HashSet<u64>>> = Mutex::new(None);
 static DANGLING_RELEASES: AtomicU64 = AtomicU64::new(0);
